@@ -48,6 +48,9 @@ type vfHalf struct {
 	cutAt      int64 // -1 = none; after this many delivered bytes the reader gets cutErr (nil = EOF)
 	cutErr     error
 	cutHit     bool
+	lateFailK  int
+	lateErr    error
+	lateWait   func()
 	failWriteK int // 0 = none; the k-th (1-based) Write call fails
 	failWErr   error
 	onCut      func()
@@ -62,10 +65,16 @@ func newVfHalf(capacity int) *vfHalf {
 	return h
 }
 
-func (h *vfHalf) write(p []byte) (int, error) {
+func (h *vfHalf) write(p []byte) (nn int, rerr error) {
 	h.mu.Lock()
 	defer h.mu.Unlock()
 	h.writes++
+	late := false
+	defer func() {
+		if late && rerr == nil {
+			rerr = h.lateErr
+		}
+	}()
 	if h.failWriteK > 0 && h.writes == h.failWriteK {
 		err := h.failWErr
 		if err == nil {
@@ -86,6 +95,20 @@ func (h *vfHalf) write(p []byte) (int, error) {
 	}
 	if h.wclosed {
 		return 0, errVfClosed
+	}
+	if h.lateFailK > 0 && h.writes == h.lateFailK {
+		// this write goes out completely, and is reported as failed afterwards (a transport that learns of the
+		// failure only after the peer has acted on the bytes)
+		defer func() {
+			wait, err := h.lateWait, h.lateErr
+			h.werr = err
+			h.mu.Unlock()
+			if wait != nil {
+				wait()
+			}
+			h.mu.Lock()
+		}()
+		late = true
 	}
 	if h.tap != nil && len(p) > 0 {
 		h.tap(p)
@@ -278,6 +301,15 @@ func (c vfConnCtl) FailWrite(d vfDir, k int, err error, onCut func()) {
 	h := c.half(d)
 	h.mu.Lock()
 	h.failWriteK, h.failWErr, h.onCut = h.writes+k, err, onCut
+	h.mu.Unlock()
+}
+
+// LateFailWrite: the k-th write call from now on is delivered completely and then reported as failed with err,
+// after wait() has returned; later writes fail at once.
+func (c vfConnCtl) LateFailWrite(d vfDir, k int, err error, wait func()) {
+	h := c.half(d)
+	h.mu.Lock()
+	h.lateFailK, h.lateErr, h.lateWait = h.writes+k, err, wait
 	h.mu.Unlock()
 }
 
